@@ -2099,8 +2099,9 @@ def apply(repo) -> dict:
             _split_tuple_assigns(f.node)
             _coalesce_inliner_copies(f.node)
             _beta_reduce_lambdas(f.node)
-            from .repo import _unroll_literal_quantifiers
+            from .repo import _unroll_literal_quantifiers, _hoist_if_walrus
             _unroll_literal_quantifiers(f.node)
+            _hoist_if_walrus(f.node)
         # a loop over a list that was only built to be looped over is the loop over its source (everywhere: collecting
         # first and looping afterwards is a common way to write the same scan)
         if _unfold_comprehension_loops(f.node):
